@@ -61,6 +61,7 @@ func init() {
 		Judge: mc.JudgeOf(c07Judge),
 	})
 	mc.RegisterWorker("c07corrupt", c07Worker)
+	mc.RegisterWorker("c07declared", c07DeclaredWorker)
 }
 
 func c07Frames() []c06Frame {
@@ -326,6 +327,41 @@ func c07ReadErrDeclared(f c06Frame, declared uint64, k int, together bool, unifo
 		ok = "SUCCESS"
 	}
 	return fmt.Sprintf("n=%d %s", n, ok), fmt.Sprintf("n=%d error", k)
+}
+
+// c07DeclaredWorker: args = [case JSON]. Executes ONE declared-size read-error case and prints "R <got>".
+func c07DeclaredWorker(args []string) int {
+	var cs c07Case
+	if len(args) != 1 || json.Unmarshal([]byte(args[0]), &cs) != nil || cs.Frame == nil {
+		return 2
+	}
+	d, _ := strconv.ParseUint(cs.Declared, 10, 64)
+	g, _ := c07ReadErrDeclared(*cs.Frame, d, cs.Cut, cs.Mode == "together", cs.Uniform)
+	b, _ := json.Marshal(g)
+	fmt.Printf("R %s\n", b)
+	return 0
+}
+
+// c07DeclaredIsolated runs one declared-size case in a child under ulimit -v: a library that allocates what
+// the header declares (2^40, 2^63 ... bytes) kills the child, not the check, and is reported for this case.
+func c07DeclaredIsolated(cs c07Case) (got, want string) {
+	want = fmt.Sprintf("n=%d error", cs.Cut)
+	self, err := os.Executable()
+	if err != nil {
+		panic("harness: cannot find own executable: " + err.Error())
+	}
+	arg, _ := json.Marshal(cs)
+	cmd := exec.Command("/bin/sh", "-c", `ulimit -v 4194304; exec "$0" -worker c07declared "$1"`, self, string(arg))
+	cmd.Env = append(os.Environ(), "GOGC=50")
+	out, runErr := cmd.Output()
+	for _, line := range strings.Split(string(out), "\n") {
+		if strings.HasPrefix(line, "R ") {
+			var g string
+			json.Unmarshal([]byte(line[2:]), &g)
+			return g, want
+		}
+	}
+	return fmt.Sprintf("PROCESS DIED (%v) while executing this case", runErr), want
 }
 
 // c07TempErr is a transient reader error: Temporary() and Timeout() report true (an expired deadline).
@@ -937,8 +973,8 @@ func c07Run(c *mc.Ctx) {
 			var g, w string
 			cs := c07Case{Frame: &fc, Cut: j.k, Mode: mode, Uniform: j.uni}
 			if j.declared != 0 {
-				g, w = c07ReadErrDeclared(j.f, j.declared, j.k, j.tog, j.uni)
 				cs.Declared = fmt.Sprint(j.declared)
+				g, w = c07DeclaredIsolated(cs)
 			} else {
 				g, w = c07ReadErr(j.f, j.k, j.tog, j.uni)
 			}
@@ -1121,8 +1157,7 @@ func c07Judge(kind string, cs c07Case) (got, want string) {
 		return c07WriterFault(*cs.Frame, cs.Budget, cs.Mode)
 	case "readerror":
 		if cs.Declared != "" {
-			d, _ := strconv.ParseUint(cs.Declared, 10, 64)
-			return c07ReadErrDeclared(*cs.Frame, d, cs.Cut, cs.Mode == "together", cs.Uniform)
+			return c07DeclaredIsolated(cs)
 		}
 		if len(cs.Choices) > 0 {
 			return c07ReadErrEnv(*cs.Frame, cs.Cut, cs.Mode == "together", 0, mc.NewEnv(cs.Choices))
